@@ -2,6 +2,7 @@ import PhyVerif.Model.C09
 import PhyVerif.Spec.C09
 import PhyVerif.Lemmas.C09
 import PhyVerif.Lemmas.C09b
+import PhyVerif.Lemmas.C09c
 /-!
 # C09 — amplitude, depth, duration and peak-channel summaries follow their definitions
 Only property theorems + non-vacuity examples; proofs in `Lemmas/C09.lean`.  Exact arithmetic.
@@ -155,20 +156,22 @@ theorem peakChannels_spec (wfs : List Mat) (t ns nc : Nat) (ht : t < wfs.length)
     (peakChannels wfs).length = wfs.length :=
   Lemmas.peakChannels_spec wfs t ns nc ht hrect hns hnc
 
--- `hr` is the domain (a sampling rate); the equation itself does not need it
-set_option linter.unusedVariables false in
 /-- `_waveform_durations` in MILLISECONDS, direct formula: for THE peak channel `p` of waveform `t`, THE first
 position `iM` of the maximum and THE first position `im` of the minimum along time on that channel, entry `t`
-is `(iM − im) · 1000 / rate`; one entry per waveform.  All waveforms are `(ns, nc)` slices of one array, ≥ 1
-sample, ≥ 1 channel, rate > 0 (rate 0: the real code divides by zero, inf/NaN).  That `p`, `iM`, `im` exist
-(and are unique): `duration_objects_exist`. -/
+is `(iM − im) · 1000 / rate`, i.e. entry × rate = samples × 1000 (this second form is FALSE at rate 0, where the
+model's `x / 0 = 0` would make the first one hold for the wrong reason: `hr` is needed); one entry per waveform.
+All waveforms are `(ns, nc)` slices of one array, ≥ 1 sample, ≥ 1 channel.  `hr : 0 < rate` is the real domain:
+`TemplateModel.__init__` asserts `self.sample_rate > 0` (model.py:338), a dataset with rate ≤ 0 does not load.
+That `p`, `iM`, `im` exist (and are unique): `duration_objects_exist`. -/
 theorem duration_ms_spec (wfs : List Mat) (rate : Rat) (hr : 0 < rate) (ns nc : Nat) (hns : 0 < ns)
     (hnc : 0 < nc) (hrect : ∀ W ∈ wfs, Rect W ns nc) (t : Nat) (ht : t < wfs.length) (p iM im : Nat)
     (hp : IsPeakChannel (wfs.getD t []) nc p) (hM : IsFirstMax (chan (wfs.getD t []) p) iM)
     (hm : IsFirstMin (chan (wfs.getD t []) p) im) :
     (waveformDurations wfs rate).getD t 0 = (((iM : Int) - (im : Int) : Int) : Rat) * 1000 / rate ∧
+    (waveformDurations wfs rate).getD t 0 * rate = (((iM : Int) - (im : Int) : Int) : Rat) * 1000 ∧
     (waveformDurations wfs rate).length = wfs.length :=
   ⟨Lemmas.duration_ms_spec wfs rate ns nc hns hnc hrect t ht p iM im hp hM hm,
+   Lemmas.duration_times_rate _ _ rate hr (Lemmas.duration_ms_spec wfs rate ns nc hns hnc hrect t ht p iM im hp hM hm),
    Lemmas.waveformDurations_length wfs rate⟩
 
 /-- The peak channel and the first arg-max / arg-min along time that `duration_ms_spec` quantifies over exist. -/
@@ -190,6 +193,103 @@ theorem depth_direct (feat0 : List (List Rat)) (cols : List (List Nat)) (ys : Li
        let y := fun k => ys.getD ((cols.getD (st.getD i 0) []).getD k 0) 0
        if sumTo nloc w = 0 then none else some (sumTo nloc (fun k => y k * w k) / sumTo nloc w)) :=
   Lemmas.depth_direct feat0 cols ys st i nloc hi hl hf hst hc hb
+
+/-! ## Third part: WHICH stored arrays each summary is computed from (model: `Model/C09c.lean`,
+specification: `Spec/C09c.lean`, proofs: `Lemmas/C09c.lean`).  `Stored` holds the files of the dataset; nothing is
+read back from a loaded model. -/
+
+/-- The id space of `get_amplitudes_true(use=…)`, `*_channels`, `*_waveforms_durations`: the per-cluster summaries
+(`clusters = true`) are indexed by `spike_clusters` and have one entry per id from 0 to the HIGHEST cluster id once
+anything was curated, one entry per TEMPLATE otherwise (cluster ids are then template ids, including the ids of
+templates — the highest one too — that no spike uses); the per-template ones are indexed by `spike_templates`, one
+per template.  The waveform array, the declared count `n_wav` and this number agree. -/
+theorem useArrays_spec (s : Stored) (clusters : Bool) :
+    (useArrays s clusters).1.length = idCount s clusters ∧ (useArrays s clusters).2.2 = idCount s clusters ∧
+    (useArrays s clusters).2.1 = assignment s clusters :=
+  Lemmas.useArrays_spec s clusters
+
+/-- `get_amplitudes_true` never fails on the count mismatch (`n_wav` vs. the waveform array) in either id space. -/
+theorem amplitudesTrueUse_defined (s : Stored) (clusters : Bool) (f : Rat) :
+    amplitudesTrueUse s clusters f = some (amplitudesTrue (useData s clusters) f) :=
+  Lemmas.amplitudesTrueUse_defined s clusters f
+
+/-- THE NaN CLAUSE on the stored arrays, both id spaces, any unit factor: for every id `t` below the number of ids
+of the space (so also the highest one) the returned per-id amplitude is the mean of the returned spike amplitudes
+over the member spikes; it is NaN EXACTLY when `t` does not occur in the STORED assignment (the set of spike-less
+ids is computed from `spike_templates.npy` / `spike_clusters.npy`, not taken from the loaded model's `nan_idx`),
+and then the returned waveform is NaN too.  The defaults `some 0` / `some []` show that index `t` exists.
+(`ha`: amplitudes and assignment of different length make the real code raise ValueError.) -/
+theorem ampsUse_spec (s : Stored) (clusters : Bool) (f : Rat)
+    (ha : s.amplitudes.length = (assignment s clusters).length) (t : Nat) (ht : t < idCount s clusters) :
+    ∃ sa resc av, amplitudesTrueUse s clusters f = some (sa, resc, av) ∧
+      sa.length = (assignment s clusters).length ∧ resc.length = idCount s clusters ∧
+      av.length = idCount s clusters ∧
+      av.getD t none = meanOver (assignment s clusters) sa t ∧
+      (av.getD t (some 0) = none ↔ t ∉ assignment s clusters) ∧
+      (t ∉ assignment s clusters → resc.getD t (some []) = none) :=
+  Lemmas.ampsUse_spec s clusters f ha t ht
+
+/-- The same at `Data` level: NaN exactly for the ids without a spike. -/
+theorem ampsVUnit_none_iff (d : Data) (f : Rat) (ha : d.amplitudes.length = d.spikes.length) (t : Nat)
+    (ht : t < d.wfsW.length) : (ampsVUnit d f).getD t none = none ↔ t ∉ d.spikes :=
+  Lemmas.ampsVUnit_none_iff d f ha t ht
+
+/-- Peak channels and durations (ms) of either id space are the direct formulas on ITS waveforms — the stored
+templates, or the cluster waveforms of C08 (`C08.loadClusters`: template waveform / count-weighted mean / zeros for
+a curated id without spikes / the template array itself when nothing was curated) — one entry per id, also for ids
+without spikes (no NaN there: the statement's NaN clause is about amplitudes).  `hst`: a spike of a template beyond
+the template array makes the real loader fail. -/
+theorem summariesUse_spec (s : Stored) (clusters : Bool) (rate : Rat)
+    (hst : ∀ t ∈ s.st, t < s.templates.length) (hW : ∀ M ∈ s.templates, Rect M s.ns s.nc)
+    (hns : 0 < s.ns) (hnc : 0 < s.nc) (t : Nat) (ht : t < idCount s clusters) :
+    (channelsUse s clusters).length = idCount s clusters ∧
+    (durationsUse s clusters rate).length = idCount s clusters ∧
+    ∃ p iM im, IsPeakChannel ((useArrays s clusters).1.getD t []) s.nc p ∧
+      IsFirstMax (chan ((useArrays s clusters).1.getD t []) p) iM ∧
+      IsFirstMin (chan ((useArrays s clusters).1.getD t []) p) im ∧
+      (channelsUse s clusters).getD t 0 = p ∧
+      (durationsUse s clusters rate).getD t 0 = (((iM : Int) - (im : Int) : Int) : Rat) * 1000 / rate :=
+  Lemmas.summariesUse_spec s clusters rate hst hW hns hnc t ht
+
+/-- The one-pass evaluation used by the driver is, component by component, the definitions the theorems above are
+about. -/
+theorem summariesUse_eq (s : Stored) (clusters : Bool) (f rate : Rat) :
+    summariesUse s clusters f rate =
+      (useArrays s clusters, amplitudesTrueUse s clusters f, channelsUse s clusters, durationsUse s clusters rate) :=
+  rfl
+
+/-- `templates_probes`: entry `t` is the stored probe of THE peak channel of template `t`; one per template. -/
+theorem templatesProbes_spec (probes : List Int) (templates : List Mat) (t ns nc : Nat)
+    (ht : t < templates.length) (hrect : Rect (templates.getD t []) ns nc) (hns : 0 < ns) (hnc : 0 < nc)
+    (hp : probes.length = nc) :
+    (templatesProbes probes templates).length = templates.length ∧
+    ∃ p, IsPeakChannel (templates.getD t []) nc p ∧ p < probes.length ∧
+      (templatesProbes probes templates).getD t 0 = probes.getD p 0 :=
+  Lemmas.templatesProbes_spec probes templates t ns nc ht hrect hns hnc hp
+
+/-- `templates_amplitudes` / `clusters_amplitudes` AS RETURNED (a bare vector): one entry per id PRESENT, position
+`k` belongs to the `k`-th smallest present id (`Np.unique`: strictly increasing, exactly the ids present —
+`C07.unique_spec`) and holds the mean stored amplitude of that id's spikes (a non-empty set).  Ids without spikes
+have NO entry here, unlike in `get_amplitudes_true`. -/
+theorem amplitudesVec_spec (ids : List Nat) (amps : List Rat) (h : amps.length = ids.length) :
+    (amplitudesVec ids amps).length = (Np.unique (ids.map Int.ofNat)).length ∧
+    ∀ k, k < (Np.unique (ids.map Int.ofNat)).length →
+      (Np.unique (ids.map Int.ofNat)).getD k 0 ∈ ids ∧
+      0 < (membersOf ids ((Np.unique (ids.map Int.ofNat)).getD k 0)).length ∧
+      (amplitudesVec ids amps).getD k 0 =
+        ((membersOf ids ((Np.unique (ids.map Int.ofNat)).getD k 0)).map fun i => amps.getD i 0).sum /
+          ((membersOf ids ((Np.unique (ids.map Int.ofNat)).getD k 0)).length : Nat) :=
+  Lemmas.amplitudesVec_spec ids amps h
+
+/-- "UNWHITENED": when the inverse whitening matrix really inverts the whitening matrix (`wm · wmi = 1`, both
+`nc × nc`), multiplying the STORED (whitened) waveform `U · wm` by `wmi` — what `get_amplitudes_true` does before
+taking peak-to-peak amplitudes — gives back the physical waveform `U`, entry by entry.  (A dataset that stores only
+`whitening_mat_inv.npy` has `wm = 1` in the real model while `wmi` is the stored file: there "unwhitened" just means
+"times the stored inverse" and this hypothesis does not hold.) -/
+theorem unwhiten_whitened (U wm wmi : Mat) (ns nc : Nat) (hU : Rect U ns nc) (hnc : 0 < nc)
+    (hinv : Unwhitens wm wmi nc) (s j : Nat) (hs : s < ns) (hj : j < nc) :
+    entry (matMul (matMul U wm) wmi) s j = entry U s j :=
+  Lemmas.unwhiten_whitened U wm wmi ns nc hU hnc hinv s j hs hj
 
 /-! Non-vacuity -/
 example :
@@ -255,6 +355,48 @@ example : (depths [[1, -2, 2, 3]] [[2, 0, 1, 2]] [10, 20, 40] [0]).getD 0 none =
     (by decide) (by decide)]
   decide +kernel
 end Instances
+/-! Third part: concrete inputs for the id-space theorems. -/
+section InstancesC
+/-- un-curated, the HIGHEST template (2) has no spike -/
+def exS : Stored := ⟨[[[1, 0], [-1, 2]], [[0, 3], [0, -3]], [[5, 5], [1, 1]]], [[0, 1], [1], [0, 1]], [0, 0, 1], [0, 0, 1],
+  2, 2, [[2, 0], [0, 1/2]], [1, 2, 1/2]⟩
+/-- curated: cluster 4 = templates 0 and 1, cluster 0 = template 0, ids 1, 2, 3 without spikes -/
+def exC : Stored := { exS with sc := [4, 0, 4] }
+
+example : idCount exS true = 3 ∧ idCount exS false = 3 ∧ idCount exC true = 5 ∧ idCount exC false = 3 := by decide
+example : amplitudesTrueUse exS true (5/2) =
+    some ([10, 20, 15/4], [some [[15/2, 0], [-15/2, 15/4]], some [[0, 15/8], [0, -15/8]], none],
+          [some 15, some (15/4), none]) := by decide +kernel
+-- the same dataset, per cluster after curation: 5 ids, NaN at 1, 2, 3; cluster 4 is the mean of templates 0 (1 spike)
+-- and 1 (1 spike, channel 1 only)
+example : (useArrays exC true).1 = [[[1, 0], [-1, 2]], [[0, 0], [0, 0]], [[0, 0], [0, 0]], [[0, 0], [0, 0]],
+    [[1/2, 3/2], [-1/2, -1/2]]] := by decide +kernel
+example : (amplitudesTrueUse exC true 1).map (·.2.2) = some [some 8, none, none, none, some (3/2)] := by decide +kernel
+example : channelsUse exC true = [0, 0, 0, 0, 1] ∧ durationsUse exC true 1000 = [-1, 0, 0, 0, -1] ∧
+    channelsUse exS true = [0, 1, 0] ∧ durationsUse exS true 1000 = [-1, -1, -1] := by decide +kernel
+example : ∃ sa resc av, amplitudesTrueUse exS true (5/2) = some (sa, resc, av) ∧
+      sa.length = (assignment exS true).length ∧ resc.length = idCount exS true ∧ av.length = idCount exS true ∧
+      av.getD 2 none = meanOver (assignment exS true) sa 2 ∧
+      (av.getD 2 (some 0) = none ↔ 2 ∉ assignment exS true) ∧
+      (2 ∉ assignment exS true → resc.getD 2 (some []) = none) :=
+  ampsUse_spec exS true (5/2) (by decide) 2 (by decide)
+example : 2 ∉ assignment exS true ∧ 3 ∉ assignment exC true ∧ 4 ∈ assignment exC true := by decide
+example : (channelsUse exC true).length = idCount exC true :=
+  (summariesUse_spec exC true 1000 (by decide) (by decide) (by decide) (by decide) 4 (by decide)).1
+example : templatesProbes [0, 7] exS.templates = [0, 7, 0] := by decide +kernel
+example : (templatesProbes [0, 7] exS.templates).length = exS.templates.length :=
+  (templatesProbes_spec [0, 7] exS.templates 1 2 2 (by decide) ⟨by decide, by decide⟩ (by decide) (by decide) rfl).1
+example : amplitudesVec [3, 0, 3, 5] [1, 2, 4, 1/2] = [2, 5/2, 1/2] ∧ Np.unique ([3, 0, 3, 5].map Int.ofNat) = [0, 3, 5] := by
+  decide +kernel
+example : (amplitudesVec [3, 0, 3, 5] [1, 2, 4, 1/2]).length = 3 :=
+  (amplitudesVec_spec [3, 0, 3, 5] [1, 2, 4, 1/2] rfl).1
+example : Unwhitens [[2, 0], [1, 1]] [[1/2, 0], [-1/2, 1]] 2 := by decide +kernel
+example : ¬ Unwhitens [[1, 0], [0, 1]] [[1/2, 0], [-1/2, 1]] 2 := by decide +kernel
+example : entry (matMul (matMul [[1, 2], [3, 4]] [[2, 0], [1, 1]]) [[1/2, 0], [-1/2, 1]]) 1 0 = 3 := by
+  rw [unwhiten_whitened [[1, 2], [3, 4]] [[2, 0], [1, 1]] [[1/2, 0], [-1/2, 1]] 2 2 ⟨by decide, by decide⟩ (by decide)
+    (by decide +kernel) 1 0 (by decide) (by decide)]
+  decide +kernel
+end InstancesC
 example : depths [[1, -2, 2, 3]] [[2, 0, 1, 2]] [10, 20, 40] [0] = [some (240/7)] := by
   decide +kernel
 example :
